@@ -6,9 +6,15 @@ def strip_amb(s):
     return re.sub(r" amb=\d", "", s)
 
 
+RUNNERS = {}       # engine -> f(cases) -> case dicts (engines that are not one in-process harness run)
+FIRST_MISMATCH = {}
+
+
 def run_cases(engine, cases, chunk=150):
     """cases: list of raw op lists (each starting with a cfg line).
     Returns per case: dict(raw, ann, impl, model, err)"""
+    if engine in RUNNERS:
+        return RUNNERS[engine](cases)
     out = []
     for c0 in range(0, len(cases), chunk):
         part = cases[c0:c0 + chunk]
@@ -41,6 +47,8 @@ COMPARERS = {}     # engine -> f(impl_line, model_line) -> bool (equal)
 def first_mismatch(case):
     """index of the first op whose canonical result differs (ambiguous float boundaries end the
     comparison of that case), or None"""
+    if case.get("engine") in FIRST_MISMATCH:
+        return FIRST_MISMATCH[case["engine"]](case)
     cmp = COMPARERS.get(case.get("engine"))
     for i, (a, b) in enumerate(zip(case["impl"], case["model"])):
         if cmp is not None:
